@@ -36,11 +36,6 @@ fn finite(s: &Script) -> bool { s.rules.iter().all(|r| matches!(r.occ, Occ::Nth(
 /// the recorded finding classes, as predicates on (script, outcome)
 fn known_class(o: &Outcome) -> Option<&'static str> {
     let s = &o.script;
-    let server_fin_lost = s.rules.iter().any(|r| r.dir == Dir::BtoA && r.kind == Kind::FIN && r.occ == Occ::Nth(0)
-        && (matches!(r.act, Act::Drop | Act::Swap) || matches!(&r.act, Act::Tamper(t) if t.contains(&Tam::Corrupt))));
-    if server_fin_lost && o.sstate == 2 && o.cstate == 1 {
-        return Some("lost_server_finished");
-    }
     let bad_frag = s.rules.iter().any(|r| match &r.act {
         Act::Frag { cuts, order } => cuts.len() >= 2 && order.windows(2).any(|w| w[1] != w[0] + 1),
         _ => false,
@@ -58,7 +53,7 @@ fn scripts(tier: &str, rng: &mut Rng) -> Vec<(String, Script)> {
     for (ce, se) in [(Expect::None, Expect::None), (Expect::Right, Expect::None), (Expect::Right, Expect::Right)] {
         v.push(("corpus".into(), mk(format!("baseline {:?}/{:?}", ce, se), ce, se, vec![], 2500)));
     }
-    v.push(("corpus".into(), mk("F19 drop server Finished".into(), Expect::Right, Expect::None, vec![single(Dir::BtoA, Kind::FIN, 0, Act::Drop)], 3300)));
+    v.push(("corpus".into(), mk("F19 drop server Finished (fixed 1decd50)".into(), Expect::Right, Expect::None, vec![single(Dir::BtoA, Kind::FIN, 0, Act::Drop)], 3300)));
     v.push(("corpus".into(), mk("drop client ClientKeyExchange (fixed c3f15a2)".into(), Expect::Right, Expect::None, vec![single(Dir::AtoB, Kind::CKE, 0, Act::Drop)], 3300)));
     v.push(("corpus".into(), mk("F20 certificate in 3 fragments, order 0,2,1".into(), Expect::Right, Expect::None,
         vec![single(Dir::BtoA, Kind::CERT, 0, Act::Frag { cuts: vec![100, 200], order: vec![0, 2, 1] })], 3300)));
